@@ -150,7 +150,7 @@ PROPS = {
     "C02": dict(units=["worker", "actionloop"], level="proof", assumptions=WORKER_ASSUME + ["wall-clock accuracy of tokio timers is not decided; 'arrive within the window' = received by the worker before the return"],
                 claim="throttle_collect proved by Verus: a non-urgent batch is not returned before first-event time + throttle, an urgent event is the last one received and is never filtered, the recv timeout never exceeds the rest of the window",
                 trusted="stand-ins in prelude/worker_env.rs (virtual clock: only blocking calls let time pass)"),
-    "C15": dict(units=["worker", "errhook", "sources", "fswatch", "maintask"], level="proof", assumptions=WORKER_ASSUME + ["watch/unwatch failures (unit fswatch): the notify watcher is an abstract map whose calls may fail arbitrarily; notify_multi_path_errors is a stand-in yielding one runtime error per path the notify error names (at least one)"],
+    "C15": dict(units=["worker", "errhook", "sources", "fswatch", "maintask", "cfgwatch"], level="proof", assumptions=WORKER_ASSUME + ["watch/unwatch failures (unit fswatch): the notify watcher is an abstract map whose calls may fail arbitrarily; notify_multi_path_errors is a stand-in yielding one runtime error per path the notify error names (at least one)"],
                 claim="throttle_collect proved by Verus: every filter error is sent to the error channel exactly once, in order, the event is not batched and collection continues; only a closed error channel is critical. fs::worker proved: each failed watch/unwatch call is sent to the error channel once per named path, the other paths are still processed and the worker keeps running. error_hook / ErrorHook::{handle_crit,critical,elevate} proved: each received error handled exactly once, a raised critical is never ignored",
                 trusted="stand-ins in prelude/worker_env.rs, prelude/errhook_env.rs (error channel, OnceLock/Arc cell with ghost owner count, arbitrary error handler); Arc drops are not modelled (owner count at the time of handle_crit)"),
     "C18": dict(units=["command", "task"], level="proof",
@@ -171,7 +171,7 @@ PROPS = {
                              "the verdict of a directory against the ignore file stored in that very directory is left unspecified by the statement; multi-path events are only decided for zero or one path"],
                 claim="IgnoreFilter::match_path proved by Verus (loop invariant, termination): only ignore files of directories containing the path are consulted, nearest first, each once, none skipped when nothing matched, verdict = nearest match; check_dir and IgnoreFilterer::check_event (0/1 path) proved against it",
                 trusted="stand-ins + path-theory axioms in prelude/ignore_env.rs; sequence reasoning in verified wrappers (units/ignore/spec.rs)"),
-    "C12": dict(units=["clifilter"], level="proof",
+    "C12": dict(units=["clifilter", "clipatterns"], level="proof",
                 assumptions=["clap parsing of argv into Args is not decided; discovery itself (ignore_files::from_origin / from_environment: the head of dirs::ignores) is C14 territory and enters as arbitrary lists",
                              "dirs::ignores = head (discovery, not extracted) followed by the verified tail whose result is the function's result; WatchexecFilterer::new beyond its first statement (filters, built-in list, extensions: format!/String code) is covered only by the structural obligations C12.structure.* (which flags are read where)",
                              "iterator adapter idioms (filter/map/extend/collect) are redirected to prelude functions with sequence-level specs (R10d); every closure body is proved against its clause and ghost twin",
@@ -249,6 +249,15 @@ PROPS["C13"]["thorough_engines"] = [_hist("lib", sc, "C13", w) for sc, w in [
     ("change_during_apply_is_not_lost", "a configuration change made while the previous one is being applied is applied")]]
 PROPS["C18"]["thorough_engines"] = PROPS["C18"]["fallback"]
 PROPS["C08"]["thorough_engines"] = PROPS["C08"]["fallback"]
+PROPS["C20"]["thorough_engines"] = [replay_engine("ignorefiles", "origins_markers_bounded", "C20.bounded.origins_and_types_equal_the_documented_tables",
+    "the real project-origins crate on one 4-level chain: each of the 53 documented markers as a file and as a directory at each level (424 placements, started from the leaf and from above the marker) plus 52 two-marker placements: origins() returns exactly the marked directories of the chain, types() exactly the documented types; every ProjectType is VCS xor software")]
+_STREAM = "3 seeded streams of 80 events sent to the real library (every priority, pass / reject / error verdicts, empty events, gaps from 0 to 2 x the 120 ms throttle): "
+PROPS["C01"]["thorough_engines"] = [replay_engine("lib", "event_stream_c01", "C01.bounded.each_accepted_event_in_exactly_one_batch",
+    _STREAM + "each accepted, urgent or empty event reaches the action handler in exactly one batch, no rejected or errored one does, no batch is empty")]
+PROPS["C02"]["thorough_engines"] = [replay_engine("lib", "event_stream_c02", "C02.bounded.no_batch_before_the_throttle_has_passed",
+    _STREAM + "a batch without an urgent event is never handed over before the throttle has passed since its earliest event was sent (lower bound only; the upper bound is timing-sensitive and left to the proof)")]
+PROPS["C15"]["thorough_engines"] = [replay_engine("lib", "event_stream_c15", "C15.bounded.each_filter_error_reaches_the_error_handler_once",
+    _STREAM + "each filter error reaches the error handler exactly once and later events are still processed")]
 PROPS["C11"]["thorough_engines"] = [replay_engine("ignorefiles", "globset_rule_bounded", "C11.bounded.verdict_is_the_documented_rule",
     "the real GlobsetFilterer on 4 configurations x all events of 1..2 paths over 7 file names x 3 file types (1848 events): the verdict equals the documented rule; watched-file and path-less events pass")]
 PROPS["C12"]["thorough_engines"] = [script_engine("cli_flag_sources.py", "cli_flag_sources", "C12.bounded.flags_remove_exactly_the_named_sources",
